@@ -3,6 +3,17 @@
 import json, os
 V = os.path.dirname(os.path.dirname(os.path.abspath(__file__)))
 
+def findings_note(pid):
+    """recorded / repaired findings of this property, from known_findings.json (single source)."""
+    kf = json.load(open(os.path.join(V, "known_findings.json")))
+    rec = [f["key"].split("-")[0] for f in kf["findings"] if f["property"] == pid]
+    nfix = sum(1 for f in kf["fixed"] if f"property={pid} " in f)
+    out = "; recorded findings: " + (", ".join(rec) if rec else "none")
+    if nfix:
+        out += f"; {nfix} genuine defect(s) found by this check were repaired in /repo (known_findings.json, 'fixed')"
+    return out
+
+
 CHECKS = {
  "C07": dict(
     technique="runtime differential: expression trees evaluated with Python's operators vs parse_expression of 7 renderings (independent reader + ast validate each rendering); audit hook + profile hook during parsing of hostile strings",
@@ -11,7 +22,7 @@ CHECKS = {
          "whitespace; the parsed value, units, magnitude type or error class must equal the tree's. Word forms, literal types, uncertainty notations, ureg(s) and Quantity(s) entry points; "
          "damaged strings (dropped parenthesis or operand, dangling operator) must raise; 24 k / 400 k hostile strings parsed under sys.addaudithook + sys.setprofile (eval, exec, compile, "
          "import, open, os.*, getattr from parser frames) must produce only exceptions or quantities.",
-    note="renderings that the independent reader cannot read back make the run inconclusive, never a violation; three recorded findings (E1-E3); CPython's own tokenizer error path opening '<string>' is counted only",
+    note="renderings that the independent reader cannot read back make the run inconclusive, never a violation; CPython's own tokenizer error path opening '<string>' is counted only",
     ref="4/C07"),
  "C03": dict(
     technique="runtime oracles: reference-model evaluation of every operator node (exact in the Fraction registry) + re-expression metamorphic relation; operand fingerprints; icontract invariants on the live UnitsContainer; line observer on 23 anchored methods",
@@ -19,8 +30,8 @@ CHECKS = {
          "binary node as plain, reflected (also the reflected dunder called directly) and in-place form, leaves expressed in 4 alternative unit assignments (other units of the class, prefixed, "
          "compounds, percent/ppm/radian decorations), magnitudes int/Fraction/Decimal/float/ndarray, default and auto_reduce registries, generated registries: every node's real result is "
          "compared with (value in root units, dimension vector) computed by the independent model and with the same node under the other unit assignments; error classes must agree; only "
-         "in-place targets may change (fingerprints); 52 M container-invariant evaluations per quick run.",
-    note="offset/log units out of scope (C06); negatively scaled units excluded; float runs carry a propagated error bound; one recorded finding (float auto-reduce rounding, shared with C15), one defect fixed (in-place ** by a zero quantity)",
+         "in-place targets may change (fingerprints); 52 M container-invariant evaluations per quick run. Later addition: shards with the spectroscopy context active (operators must not convert through it).",
+    note="offset/log units out of scope (C06); negatively scaled units excluded; float runs carry a propagated error bound",
     ref="4/C03"),
  "C06": dict(
     technique="runtime oracle: affine/log unit model + 51-rule table transcribed from docs and test tables vs real conversions and arithmetic in 4 registry modes; in-place vs functional twins; line observer on the anchored functions",
@@ -28,23 +39,23 @@ CHECKS = {
          "+ - * / ** neg abs == < > with numbers, numpy scalars, ndarrays and compounds, in all four {autoconvert_offset_to_baseunit} x {default_as_delta} modes: unit container and value "
          "must equal the cited rule (exact in the Fraction registry for affine maps), ambiguous cells must raise the cited error class, to/convert/m_as/ito must agree and be mutually "
          "inverse, in-place results equal functional twins, parse_units delta reading; a sys.monitoring observer shows all 9 arms of _add_sub/_iadd_sub were executed.",
-    note="cells no document or test row covers are recorded as 'unspecified, observed X' and never alarmed on; three recorded findings (O1-O3)",
+    note="cells no document or test row covers are recorded as 'unspecified, observed X' and never alarmed on",
     ref="4/C06"),
  "C15": dict(
     technique="runtime oracle: reference-model root value and dimension vector before/after every rewriting helper; structural clauses for to_reduced_units and to_compact; ito twins",
     text="Random quantities over all 385 canonical multiplicative units (1-4 units, exponents -3..3, 61 decades, int/Fraction/float/Decimal/ufloat) through to_root_units, to_base_units "
          "(7 systems), to_reduced_units, to_compact, to_preferred and their ito_ forms, and through arithmetic under auto_reduce_dimensions / autoconvert_to_preferred: value and dimension "
          "preserved (exact == in the Fraction registry on untainted units), ito object equals the functional result, no two mergeable units left, to_compact changes one decimal prefix on one "
-         "unit and brings a first-power leading unit into [1,1000), special inputs unchanged; every unit alone at decade boundaries.",
-    note="float-range excursions of tainted (Planck/atomic) factors are counted, not judged; five recorded findings (D12, T2-T5)",
+         "unit and brings a first-power leading unit into [1,1000), special inputs unchanged; every unit alone at decade boundaries. Later addition: exactness clause in the Fraction registry (exact magnitude, integer exponents, exactly defined units must come back exact).",
+    note="float-range excursions of tainted (Planck/atomic) factors are counted, not judged",
     ref="4/C15"),
  "C17": dict(
     technique="runtime oracle: argument recorder inside generated functions + reference-model ratios and dimension vectors vs ureg.wraps / ureg.check",
     text="Generated functions (1-5 parameters; positional-only, keyword-only, defaults) record exactly what they receive; wraps specs from {unit string, Unit, None, =A, =A*B, =A**2, =A/B ...} "
          "and scalar/tuple return specs, strict on/off; calls mix positional, keyword and omitted-default passing with compatible, incompatible, bare and arbitrary arguments. Expected "
          "magnitudes are value x model ratio over exact Fractions (never pint's convert), expected DimensionalityError from model dimension vectors; ureg.check raises iff a position "
-         "mismatches; parameter-count mismatches must be rejected at decoration time; offset units with declared-unit specs.",
-    note="a bare number for an '=A' spec is treated as dimensionless by pint's own tests: strict/non-strict clauses decided on declared-unit specs only; three recorded findings (W1-W3)",
+         "mismatches; parameter-count mismatches must be rejected at decoration time; offset units with declared-unit specs. Later additions: ndarray arguments with every wrapped function called twice on the same argument objects (argument snapshots); parameters declared with an empty units container ('' / 'dimensionless' / ureg.dimensionless).",
+    note="a bare number for an '=A' spec is treated as dimensionless by pint's own tests: strict/non-strict clauses decided on declared-unit specs only",
     ref="4/C17"),
  "C18": dict(
     technique="runtime oracles: structural fingerprints across copy/pickle/tuple round trips (fresh subprocess for unpickling), cross-registry operator matrix, fresh-twin comparison of deep-copied and lazy registries",
@@ -52,7 +63,7 @@ CHECKS = {
          "subprocess whose application registry never saw the prefixed units (attachment and pre-registration observed); all 15 exception classes; 21 operators x 7 operand kinds x 4 "
          "registry pairs must raise ValueError; 26 kinds of evolution applied to one side of a deep-copied pair, each side compared with a fresh twin that received that side's history; "
          "the lazy default registry and module-level classes probed against an explicit registry (~1500 queries).",
-    note="cross-registry == is observed, not alarmed (statement speaks of arithmetic and ordering); five recorded findings (X1-X5)",
+    note="cross-registry == is observed, not alarmed (statement speaks of arithmetic and ordering)",
     ref="4/C18"),
  "C09": dict(
     technique="runtime oracles: independent per-format readers (D, C, P, H, L, Lx) recover names/exponents/positions from every rendering; Python's own format() for magnitudes; parse-back round trip; fingerprints",
@@ -60,23 +71,23 @@ CHECKS = {
          "exponents, prefixed units, same-symbol units), every magnitude kind and 12 magnitude specs, the # modifier, 19 default_format values x 4 sort functions x "
          "separate_format_defaults, in float/Decimal/Fraction registries: each rendering is read back by an independent reader and compared with the object's container, "
          "magnitude text with Python's format(), plain-text renderings re-parsed whenever exponents are rendered exactly; nothing may raise or change the object.",
-    note="babel/locale out of scope; the 'raw' format (not listed in the statement) is observed only; eight recorded findings (P1-P8), one defect fixed (Fraction exponents)",
+    note="babel/locale out of scope; the 'raw' format (not listed in the statement) is observed only",
     ref="4/C09"),
  "C16": dict(
     technique="runtime oracles: own unit-algebra table per NumPy function + re-expression metamorphic relation + numpy on root magnitudes; input fingerprints; error and offset clauses",
     text="All 217 reachable names of HANDLED_FUNCTIONS / HANDLED_UFUNCS / wrapped ndarray methods (559 call variants: axis, keepdims, where, initial, ddof, out, atol, prepend/append ...) are "
          "called on random arrays of ranks 0-3 in three registry configurations; each abstract call is realised twice in different compatible units and both results must be physically "
          "equal, equal NumPy applied to root magnitudes, and carry the unit implied by an independently written table; inputs are fingerprinted; one argument moved to another dimension "
-         "or made bare must raise DimensionalityError; offset units must be refused or agree with the kelvin run.",
-    note="own unit-factor table verified against the registry at shard start; twelve recorded finding families (N1-N12); integer/complex dtypes, masked/dask arrays out of reach",
+         "or made bare must raise DimensionalityError; offset units must be refused or agree with the kelvin run. Later addition: trapezoid with unit-less, non-uniform sample points.",
+    note="own unit-factor table verified against the registry at shard start; integer/complex dtypes, masked/dask arrays out of reach",
     ref="4/C16"),
  "C19": dict(
     technique="runtime oracles: reference-model slopes and own first-order propagation vs real Measurement conversions/arithmetic; independent readers of the +/- notations and of every measurement format",
     text="12 constructor forms over 40 decades; every ordered compatible pair of canonical multiplicative units (7775, complete) plus temperature and log units through to()/ito(): nominal "
          "equals the plain conversion and the model ratio, sigma scales by |slope|, relative error invariant; 90 (operator, operand-kind) combinations and random expression trees with "
          "shared leaves against an own forward-mode propagation; offset rule table in two registry modes; generated +/- and concise notations (signs, exponents, spacing, unicode) "
-         "against an independent reader; 644 format specs rendered and read back by an independent reader, D/C outputs re-parsed by pint.",
-    note="float registry only (the uncertainties package is float-only); seven recorded findings (F1,F2,F4,F5,F7,F8,F9), two defects fixed (F3,F6)",
+         "against an independent reader; 644 format specs rendered and read back by an independent reader, D/C outputs re-parsed by pint. Later additions: three-digit decimal exponents in the format workload; exponent markup must end the number.",
+    note="float registry only (the uncertainties package is float-only)",
     ref="4/C19"),
  "C13": dict(
     technique="runtime shadow-twin monitor: aged registry vs fresh twin at the same declarative state after every state change; counting cache proxies",
@@ -84,8 +95,8 @@ CHECKS = {
          "to_base_units) with state changes (define, enable/disable rule and redefining contexts, default_system, creating and using a second registry that defines the same names "
          "differently). Each answer is compared with a fresh twin brought to the same declarative state that is asked each question once. State-change prefixes are enumerated "
          "exhaustively up to length 2 (quick) / 3 (thorough) with the whole pool re-asked after every change; random histories up to length 60. Counting dict proxies in the "
-         "registry's memo layers show the compared answers were cache hits.",
-    note="define-twin (same define() calls), so the loading-path finding D11 is not re-reported; one recorded finding shared with C12 (define inside a redefining context)",
+         "registry's memo layers show the compared answers were cache hits. Later additions: redefinition histories (an existing unit defined again after its dependants were memoised), activations with keyword overrides, context-sensitive questions in every context-switching history.",
+    note="define-twin (same define() calls), so the loading-path finding D11 is not re-reported",
     ref="4/C13"),
  "C12": dict(
     technique="runtime reference stack machine + fresh-twin probe battery over exhaustively enumerated operation sequences with injected failing activations; context fingerprints",
@@ -93,15 +104,15 @@ CHECKS = {
          "activation that fails part-way, disable(1), disable(all), with-enter, with-exit, exception inside a with-block, define) are executed on a real registry while a list models the stack; "
          "afterwards a 27-answer probe battery (conversions only valid inside each context, redefined and dependent units, root/base units, compatible sets, stack depth) must equal that of a "
          "fresh twin with exactly the model stack enabled, and after leaving everything the pre-entry answers; Context objects are fingerprinted, also when shared by two registries.",
-    category="fault_enumeration",
-    note="small dedicated registry (3 dimensions, 5 contexts); the twin is trusted for values (C11); one recorded finding (define inside a redefining context)",
+    category="fault_enumeration Operations added later: the decorator form ureg.with_context (returning / raising call; complete enumeration up to length 3 / 4); the battery also asks ureg.get_base_units under a default system and fingerprints every plain registry setting (on_redefinition policy ...).",
+    note="small dedicated registry (3 dimensions, 5 contexts); the twin is trusted for values (C11)",
     ref="4/C12"),
  "C11": dict(
     technique="runtime oracle: independent all-shortest-chains evaluator over the declared rules vs real conversions under context stacks; replay under several hash seeds",
     text="Bundled contexts: every ordered pair of rule endpoints with random units of those dimensions, parameters and every activation form is converted by the real registry "
          "and compared (exact in the Fraction registry) with the value of some shortest rule chain computed by an independent reader/evaluator of the @context blocks. Generated "
          "registries with 2-4 generated contexts (monomial equations, parameters, colliding rules, parallel chains, redefinitions) and stacks of 1-4 contexts through six activation "
-         "forms; the same case streams are replayed under 4 PYTHONHASHSEEDs because tie-breaking among equal-length chains follows set order.",
+         "forms; the same case streams are replayed under 4 PYTHONHASHSEEDs because tie-breaking among equal-length chains follows set order. Later additions: rule endpoints spelled with derived dimension names; every second generated registry gets the same contexts built in code (Context + add_transformation + redefine + add_context).",
     note="any shortest chain accepted; with 3+ nested levels every enclosing context is accepted as parameter donor (pint takes the oldest; observed, not alarmed)",
     ref="4/C11"),
  "C10": dict(
@@ -110,15 +121,15 @@ CHECKS = {
          "reader derives (3 numeric types, literal types observed). Generated files (units, prefixes, derived dimensions, offset units, a group, a system, a context) are loaded "
          "through line list, shuffled lines, shuffled file, define() statement by statement, cold and warm disk cache in float/Decimal/Fraction and 4 layouts; a probe battery "
          "(names, symbols, dimensions, exact factors, offset conversions, compatible sets, members, system base units, context conversions) is compared with construction truth and across paths. "
-         "33 ill-formed inputs x 2 paths x 3 types must raise at load or first use.",
-    note="only unit/prefix lines are permuted; any exception class counts as 'raises'; one recorded finding (define() path and compatible-unit index)",
+         "33 ill-formed inputs x 2 paths x 3 types must raise at load or first use. Later additions: cache-edit workload (imported file edited between two loads with the same cache folder); three groups and a system per generated file with five comma layouts in `using`, members compared with the truth by construction.",
+    note="only unit/prefix lines are permuted; any exception class counts as 'raises'",
     ref="4/C10"),
  "C14": dict(
     technique="runtime oracle: reference-model closure/members/allowed-base-set/exact factors vs real systems and groups; reference tracker over edit histories; fresh-twin comparison after default_system changes",
     text="Every canonical unit x every declared system (and none) is sent through get_base_units(system=) and to_base_units under that default system; the result must use only "
          "the system's declared base units plus unreplaced root units, keep the model dimension and the exact model value (Fraction registry; 1e-9 for tainted systems) and be idempotent; "
          "group/system members and every restricted compatible-unit query are compared with the model closure; ureg.sys.S.name variants; random histories of default_system changes "
-         "(all probes re-asked after each change, compared with a fresh twin) and group edits (tracker); generated group graphs and systems with 'new' and 'new:old' rules incl. multi-root new units.",
+         "(all probes re-asked after each change, compared with a fresh twin) and group edits (tracker); generated group graphs and systems with 'new' and 'new:old' rules incl. multi-root new units. Later additions: read patterns with explicit-system queries; plural spellings through ureg.sys.<system>.",
     note="generated systems only use consistent substitutions (distinct new units, other roots not replaced); g.add_groups(g) self-use is not generated",
     ref="4/C14"),
  "C08": dict(
@@ -127,8 +138,8 @@ CHECKS = {
          "resolved by the real get_name/get_symbol/parse_units/getattr/in and converted numerically; the answer must be the exact spelling's unit, else one of the model's readings "
          "(the prefix factor applied exactly once), else UndefinedUnitError; the same strings are asked of a registry aged by earlier lookups; choices for ambiguous strings are "
          "digested per shard and compared across PYTHONHASHSEEDs; double-prefix strings, case-insensitive variants, random non-units, delta readings, and generated registries over a "
-         "2-letter alphabet where all strings up to length 6 are asked of a fresh registry each.",
-    note="trusts the name model (prefix/unit spelling tables read independently from the definition files); one recorded finding (auto-registered prefixed units)",
+         "2-letter alphabet where all strings up to length 6 are asked of a fresh registry each. Later additions: lookups under and after a context that redefines units; two cross parts repeated under another PYTHONHASHSEED so that finalize() compares the ambiguous choices.",
+    note="trusts the name model (prefix/unit spelling tables read independently from the definition files)",
     ref="4/C08"),
  "C05": dict(
     technique="runtime oracle: reference-model root values vs observed == != < <= > >= hash on all pairs of pools; relation laws checked on the observed relation",
@@ -136,7 +147,7 @@ CHECKS = {
          "with offset/absolute/delta units, dimensionless units with distinct root units, products differing by dimensionless roots) are compared pairwise "
          "by the real operators in the Fraction registry; each outcome is compared with exact root-unit values of an independent model; reflexivity, "
          "symmetry, transitivity (triples) and trichotomy are checked on the observed relation; cross-dimension, bare-number, NaN and float-away-from-ties clauses.",
-    note="pools are sampled per class in quick (all unit pairs in thorough); tainted units excluded; one recorded finding (delta vs offset comparisons)",
+    note="pools are sampled per class in quick (all unit pairs in thorough); tainted units excluded",
     ref="4/C05"),
  "C04": dict(
     technique="runtime law checker over exhaustive small containers + icontract class invariants on the live UnitsContainer + operand fingerprints",
@@ -151,7 +162,7 @@ CHECKS = {
     text="Every ordered same-dimension pair of canonical multiplicative units (about 8000) is converted in the Fraction registry and compared with == "
          "(and result type) against ratios computed by an independent reader; the same pairs in Decimal (1e-22) and float (1e-12, max ulp reported); "
          "identity/inverse/path laws, prefix-spelling x unit-spelling products, compound units, generated files with factors known by construction; "
-         "every root_units and conversion_factor cache entry left behind is audited key and value.",
+         "every root_units and conversion_factor cache entry left behind is audited key and value. Later additions: primed-memo conversions; ndarray magnitudes of float and integer dtype through every conversion entry point, in place and not.",
     note="trusts harness/refmodel.py (cross-validated in-run against truth-by-construction files); tainted (fractional-power) units at 1e-9",
     ref="4/C02"),
  "C01": dict(
@@ -160,14 +171,14 @@ CHECKS = {
          "(number / DimensionalityError / other) compared with dimension vectors computed by an independent reader of the definition "
          "files; predicates, compatible-unit listings, spelling variants, random compound units with symmetry/closure laws, "
          "generated registries with truth by construction, 5 registry configurations (case-insensitive under 4 hash seeds); every "
-         "entry left in the dimensionality cache is audited. The unit-pair space is enumerated completely; compounds are sampled.",
+         "entry left in the dimensionality cache is audited. The unit-pair space is enumerated completely; compounds are sampled. Later additions: dimension expressions over derived dimension names through get_dimensionality / Quantity.check / ureg.check; adjacent-exponent twins; auto-reduce closure.",
     note="trusts harness/refmodel.py (validated against generated files whose truth is known by construction); rational non-dyadic exponents only in the Fraction registry",
     ref="4/C01"),
  "C20": dict(
     technique="runtime oracle: curated standards table vs real conversions (exact in Fraction registry)",
     text="Every row of an independently curated table (~250 standard values, 32 prefixes, temperature fixed points, symbols) "
          "is converted by the real registry in the Fraction, float and Decimal configurations and compared exactly / to stated "
-         "tolerance; the table is finite and enumerated completely, so for the listed standards this is exhaustive observation.",
+         "tolerance; the table is finite and enumerated completely, so for the listed standards this is exhaustive observation. Later additions: every row also through to_base_units() twice; every SI prefix on every exactly defined row (16 k conversions), then every standard symbol resolved again.",
     note="trusts the hand-curated table (sources cited per row); units absent from the table are not covered",
     ref="4/C20"),
 }
@@ -190,7 +201,7 @@ def main():
             "replay_cmd_template": f"./check {pid} --replay {{path}}",
             "engine": "harness",
             "level_claimed": {"category": c.get("category", "exploration"), "text": c["text"], "design_ref": c["ref"]},
-            "level_note": c["note"],
+            "level_note": c["note"] + findings_note(pid),
             "technique": c["technique"],
         })
     man = {
